@@ -48,6 +48,7 @@ fn configs() -> Vec<(&'static str, Vec<&'static str>, Kind)> {
         ("for_each", vec![""], Kind::Int),
         ("vec_push", vec!["", "buf=1,2"], Kind::Int),
         ("state", vec!["", "st=1,2"], Kind::Int),
+        ("pipe", vec!["id=1", "id=1 buf=3,1", "id=2", "id=3", "id=4", "id=4 map=0:5", "id=5"], Kind::Int),
     ]
 }
 
